@@ -2,8 +2,13 @@
 //
 // A recogniser for lists `[name =] expr , [name =] expr , ...` over the token-tree alphabet of tokens.rs, written as plain
 // loop-and-index recursive descent that follows syn 2's `full` expression / type / path / pattern parsers function by
-// function (the places are named in the comments).  It is trusted base, so it is pinned against the real
-// `syn::Expr` parser by scan/validator on every token sequence up to a length bound.
+// function (the places are named in the comments), including syn's rules for multi-character punctuation: a token such as
+// `<=` is seen where its first character is Joint and the next punct is `=`; a one-character token is seen whatever the
+// spacing.  It is trusted base, so it is pinned against the real `syn::Expr` parser by scan/validator on every lexer sequence
+// up to a length bound.
+//
+// Domain: `lexer_seq` sequences in which `:` occurs only as `::` (a lone `:` - closure parameter types, associated-type
+// bounds - is outside the alphabet of the C16 claim; see `c16_seq`).
 use crate::tokens::*;
 
 #[derive(Clone, Copy, PartialEq, Eq)]
@@ -15,6 +20,7 @@ pub struct OArg {
 }
 
 const MAXTT: usize = 40;
+const MAXDEPTH: u32 = 64;
 
 struct P<'a> {
     t: &'a [Tt],
@@ -25,15 +31,17 @@ struct P<'a> {
     flags: u8,
 }
 
-/// a `|` or `||` was consumed as a binary operator
+/// a binary operator starting with `|` (`|`, `||`, `|=`) was consumed
 pub const F_BINARY_PIPE: u8 = 1;
 /// generic arguments `<..., ...>` containing a comma were consumed where no `::` precedes the `<` (type position: after `as`, inside a qualified self)
 pub const F_TYPE_ANGLE_COMMA: u8 = 2;
 
-// precedence levels of syn::Precedence that can occur with this alphabet
+// syn::Precedence
 const P_MIN: u8 = 0;
 const P_ASSIGN: u8 = 1;
+const P_RANGE: u8 = 2;
 const P_OR: u8 = 3;
+const P_AND: u8 = 4;
 const P_COMPARE: u8 = 6;
 const P_BITOR: u8 = 7;
 const P_BITAND: u8 = 9;
@@ -41,10 +49,30 @@ const P_SHIFT: u8 = 10;
 const P_SUM: u8 = 11;
 const P_CAST: u8 = 13;
 
+/// what the expression parsed so far is, as far as syn's grammar restrictions care
 #[derive(Clone, Copy, PartialEq, Eq)]
 enum Lhs {
     Plain,
+    /// a binary expression whose operator is a comparison (cannot be chained)
     Compare,
+    /// a range expression (cannot be the left-hand side of anything, takes no `.` / `?` trailer)
+    Range,
+}
+
+/// in which sequences does `:` occur only as the two halves of `::`?
+pub fn c16_seq(ts: &[Tt]) -> bool {
+    let mut i = 0;
+    while i < ts.len() {
+        if ts[i].kind == K_PUNCT && ts[i].ch == b':' {
+            if !(ts[i].joint && i + 1 < ts.len() && ts[i + 1].kind == K_PUNCT && ts[i + 1].ch == b':') {
+                return false;
+            }
+            i += 2;
+        } else {
+            i += 1;
+        }
+    }
+    true
 }
 
 impl<'a> P<'a> {
@@ -56,12 +84,17 @@ impl<'a> P<'a> {
             None
         }
     }
-    /// syn's peek_punct: every char but the last must be Joint
+    /// syn's peek_punct for a one-character token: the spacing does not matter
     fn peek_p1(&self, k: usize, c: u8) -> bool {
         matches!(self.at(k), Some(t) if t.kind == K_PUNCT && t.ch == c)
     }
+    /// ... for a two-character token: the first must be Joint
     fn peek_p2(&self, k: usize, c1: u8, c2: u8) -> bool {
         matches!(self.at(k), Some(t) if t.kind == K_PUNCT && t.ch == c1 && t.joint) && self.peek_p1(k + 1, c2)
+    }
+    /// ... for a three-character token: the first two must be Joint
+    fn peek_p3(&self, k: usize, c1: u8, c2: u8, c3: u8) -> bool {
+        matches!(self.at(k), Some(t) if t.kind == K_PUNCT && t.ch == c1 && t.joint) && self.peek_p2(k + 1, c2, c3)
     }
     fn peek_ident(&self, k: usize) -> bool {
         matches!(self.at(k), Some(t) if t.kind == K_IDENT && !t.keyword)
@@ -72,10 +105,19 @@ impl<'a> P<'a> {
     fn peek_lit(&self, k: usize) -> bool {
         matches!(self.at(k), Some(t) if t.kind == K_LIT)
     }
+    /// syn's `Lit` peek also accepts `-` followed by a literal
+    fn peek_lit_neg(&self, k: usize) -> usize {
+        if self.peek_lit(k) {
+            1
+        } else if self.peek_p1(k, b'-') && self.peek_lit(k + 1) {
+            2
+        } else {
+            0
+        }
+    }
     fn peek_group(&self, k: usize, open: u8) -> bool {
         matches!(self.at(k), Some(t) if t.kind == K_GROUP && t.ch == open)
     }
-    /// Token![x]::parse for a single-char punct: takes one punct whatever its spacing
     fn eat_p1(&mut self, c: u8) -> bool {
         if self.peek_p1(0, c) {
             self.i += 1;
@@ -92,43 +134,84 @@ impl<'a> P<'a> {
             false
         }
     }
+    fn enter(&mut self) -> bool {
+        self.depth += 1;
+        self.depth <= MAXDEPTH
+    }
 
     // ------------------------------------------------------------------ expressions (expr.rs)
 
-    /// BinOp::parse (op.rs) restricted to the alphabet: (precedence, token trees consumed)
-    fn peek_binop(&self) -> Option<(u8, usize)> {
+    /// BinOp::parse (op.rs), in its order, restricted to the alphabet: (precedence, token trees consumed, starts with `|`)
+    fn peek_binop(&self) -> Option<(u8, usize, bool)> {
+        if self.peek_p2(0, b'-', b'=') {
+            return Some((P_ASSIGN, 2, false));
+        }
+        if self.peek_p2(0, b'&', b'=') {
+            return Some((P_ASSIGN, 2, false));
+        }
+        if self.peek_p2(0, b'|', b'=') {
+            return Some((P_ASSIGN, 2, true));
+        }
+        if self.peek_p3(0, b'<', b'<', b'=') {
+            return Some((P_ASSIGN, 3, false));
+        }
+        if self.peek_p3(0, b'>', b'>', b'=') {
+            return Some((P_ASSIGN, 3, false));
+        }
+        if self.peek_p2(0, b'&', b'&') {
+            return Some((P_AND, 2, false));
+        }
         if self.peek_p2(0, b'|', b'|') {
-            return Some((P_OR, 2));
+            return Some((P_OR, 2, true));
+        }
+        if self.peek_p2(0, b'<', b'<') {
+            return Some((P_SHIFT, 2, false));
         }
         if self.peek_p2(0, b'>', b'>') {
-            return Some((P_SHIFT, 2));
+            return Some((P_SHIFT, 2, false));
         }
         if self.peek_p2(0, b'=', b'=') {
-            return Some((P_COMPARE, 2));
+            return Some((P_COMPARE, 2, false));
         }
-        // `-` also matches the first char of `->`, `|` that of nothing else here, `<` / `>` single
+        if self.peek_p2(0, b'<', b'=') {
+            return Some((P_COMPARE, 2, false));
+        }
+        if self.peek_p2(0, b'!', b'=') {
+            return Some((P_COMPARE, 2, false));
+        }
+        if self.peek_p2(0, b'>', b'=') {
+            return Some((P_COMPARE, 2, false));
+        }
         if self.peek_p1(0, b'-') {
-            return Some((P_SUM, 1));
+            return Some((P_SUM, 1, false));
         }
         if self.peek_p1(0, b'&') {
-            return Some((P_BITAND, 1));
+            return Some((P_BITAND, 1, false));
         }
         if self.peek_p1(0, b'|') {
-            return Some((P_BITOR, 1));
+            return Some((P_BITOR, 1, true));
         }
         if self.peek_p1(0, b'<') {
-            return Some((P_COMPARE, 1));
+            return Some((P_COMPARE, 1, false));
         }
         if self.peek_p1(0, b'>') {
-            return Some((P_COMPARE, 1));
+            return Some((P_COMPARE, 1, false));
         }
         None
     }
+    fn peek_assign(&self) -> bool {
+        self.peek_p1(0, b'=') && !self.peek_p2(0, b'=', b'>')
+    }
+    fn peek_dotdot(&self, k: usize) -> bool {
+        self.peek_p2(k, b'.', b'.')
+    }
     fn peek_precedence(&self) -> u8 {
-        if let Some((p, _)) = self.peek_binop() {
+        if let Some((p, _, _)) = self.peek_binop() {
             p
-        } else if self.peek_p1(0, b'=') {
+        } else if self.peek_assign() {
             P_ASSIGN
+        } else if self.peek_dotdot(0) {
+            P_RANGE
         } else if self.peek_as(0) {
             P_CAST
         } else {
@@ -137,41 +220,50 @@ impl<'a> P<'a> {
     }
     /// ambiguous_expr
     fn expr(&mut self) -> bool {
-        self.depth += 1;
-        if self.depth > 24 {
+        if !self.enter() {
             return false;
         }
-        let ok = self.unary() && self.parse_expr(Lhs::Plain, P_MIN).is_some();
+        let ok = match self.unary() {
+            Some(lhs) => self.parse_expr(lhs, P_MIN).is_some(),
+            None => false,
+        };
         self.depth -= 1;
         ok
     }
     /// parse_expr (full)
     fn parse_expr(&mut self, mut lhs: Lhs, base: u8) -> Option<Lhs> {
         loop {
-            if let Some((prec, len)) = self.peek_binop() {
+            if lhs == Lhs::Range {
+                // a range cannot be the left-hand side of another binary operator
+                break;
+            } else if let Some((prec, len, pipe)) = self.peek_binop() {
                 if prec < base {
                     break;
                 }
                 if prec == P_COMPARE && lhs == Lhs::Compare {
                     return None; // comparison operators cannot be chained
                 }
-                if prec == P_OR || prec == P_BITOR {
+                if pipe {
                     self.flags |= F_BINARY_PIPE;
                 }
                 self.i += len;
                 self.binop_rhs(prec)?;
                 lhs = if prec == P_COMPARE { Lhs::Compare } else { Lhs::Plain };
-            } else if P_ASSIGN >= base && self.peek_p1(0, b'=') {
+            } else if P_ASSIGN >= base && self.peek_assign() {
                 self.i += 1;
                 self.binop_rhs(P_ASSIGN)?;
                 lhs = Lhs::Plain;
+            } else if P_RANGE >= base && self.peek_dotdot(0) {
+                let closed = self.range_limits()?;
+                self.range_end(closed)?;
+                lhs = Lhs::Range;
             } else if P_CAST >= base && self.peek_as(0) {
                 self.i += 1;
                 if !self.ty() {
                     return None;
                 }
                 // check_cast
-                if self.peek_p1(0, b'.') || self.peek_group(0, b'(') || self.peek_group(0, b'[') {
+                if (self.peek_p1(0, b'.') && !self.peek_dotdot(0)) || self.peek_group(0, b'(') || self.peek_group(0, b'[') {
                     return None;
                 }
                 lhs = Lhs::Plain;
@@ -181,12 +273,42 @@ impl<'a> P<'a> {
         }
         Some(lhs)
     }
+    /// RangeLimits::parse, positioned at `..`: Some(closed)
+    fn range_limits(&mut self) -> Option<bool> {
+        if self.peek_p3(0, b'.', b'.', b'=') {
+            self.i += 3;
+            Some(true)
+        } else if self.peek_p3(0, b'.', b'.', b'.') {
+            None
+        } else {
+            self.i += 2;
+            Some(false)
+        }
+    }
+    /// parse_range_end
+    fn range_end(&mut self, closed: bool) -> Option<()> {
+        if !closed
+            && (self.i >= self.n
+                || self.peek_p1(0, b',')
+                || (self.peek_p1(0, b'.') && !self.peek_dotdot(0))
+                || self.peek_p2(0, b'=', b'>')
+                || self.peek_p1(0, b'=')
+                || self.peek_p1(0, b'>')
+                || self.peek_p2(0, b'<', b'=')
+                || self.peek_p2(0, b'!', b'=')
+                || self.peek_p2(0, b'-', b'=')
+                || self.peek_p2(0, b'&', b'=')
+                || self.peek_p2(0, b'|', b'=')
+                || self.peek_p3(0, b'<', b'<', b'=')
+                || self.peek_as(0))
+        {
+            return Some(());
+        }
+        self.binop_rhs(P_RANGE)
+    }
     /// parse_binop_rhs
     fn binop_rhs(&mut self, prec: u8) -> Option<()> {
-        if !self.unary() {
-            return None;
-        }
-        let mut rhs = Lhs::Plain;
+        let mut rhs = self.unary()?;
         loop {
             let next = self.peek_precedence();
             if next > prec || (next == prec && prec == P_ASSIGN) {
@@ -201,90 +323,98 @@ impl<'a> P<'a> {
         }
         Some(())
     }
-    /// unary_expr: `-` (the only prefix operator of the alphabet), else trailer_expr
-    fn unary(&mut self) -> bool {
-        self.depth += 1;
-        if self.depth > 24 {
-            return false;
+    /// unary_expr: `&` reference, `!` / `-` (the prefix operators of the alphabet), else trailer_expr
+    fn unary(&mut self) -> Option<Lhs> {
+        if !self.enter() {
+            return None;
         }
-        let ok = if self.peek_p1(0, b'-') || self.peek_p1(0, b'&') || self.peek_p1(0, b'!') {
+        let r = if self.peek_p1(0, b'&') || self.peek_p1(0, b'!') || self.peek_p1(0, b'-') {
             self.i += 1;
-            self.unary()
+            self.unary().map(|_| Lhs::Plain)
         } else {
-            self.atom() && self.trailer()
+            match self.atom() {
+                Some(a) => self.trailer(a),
+                None => None,
+            }
         };
         self.depth -= 1;
-        ok
+        r
     }
-    /// trailer_helper: calls, fields, method calls (with turbofish)
-    fn trailer(&mut self) -> bool {
+    /// trailer_helper: calls, fields, method calls (with turbofish), indexing
+    fn trailer(&mut self, mut e: Lhs) -> Option<Lhs> {
         loop {
             if self.peek_group(0, b'(') {
                 self.i += 1;
-            } else if self.peek_group(0, b'[') {
-                // ExprIndex: the bracket content must be ONE expression; the alphabet's `[a, a]` is not
-                return false;
-            } else if self.peek_p1(0, b'.') {
+                e = Lhs::Plain;
+            } else if self.peek_p1(0, b'.') && !self.peek_dotdot(0) && e != Lhs::Range {
                 self.i += 1;
                 if self.peek_lit(0) {
                     // Member::Unnamed
                     self.i += 1;
+                    e = Lhs::Plain;
                     continue;
                 }
                 if !self.peek_ident(0) {
-                    return false;
+                    return None;
                 }
                 self.i += 1;
                 let mut turbofish = false;
                 if self.peek_p2(0, b':', b':') {
                     self.i += 2;
                     if !self.angle_args() {
-                        return false;
+                        return None;
                     }
                     turbofish = true;
                 }
                 if turbofish || self.peek_group(0, b'(') {
                     // method call: parenthesized!(content in input)
                     if !self.peek_group(0, b'(') {
-                        return false;
+                        return None;
                     }
                     self.i += 1;
                 }
+                e = Lhs::Plain;
+            } else if self.peek_group(0, b'[') {
+                // ExprIndex: the bracket content must be ONE expression; the alphabet's `[a, a]` is not
+                return None;
             } else {
-                return true;
+                return Some(e);
             }
         }
     }
     /// atom_expr
-    fn atom(&mut self) -> bool {
+    fn atom(&mut self) -> Option<Lhs> {
         if self.peek_lit(0) {
             self.i += 1;
-            return true;
+            return Some(Lhs::Plain);
         }
         if self.peek_p1(0, b'|') {
-            return self.closure();
+            return if self.closure() { Some(Lhs::Plain) } else { None };
         }
         if self.peek_ident(0) || self.peek_p2(0, b':', b':') || self.peek_p1(0, b'<') {
             // path_or_macro_or_struct
-            let (qself, mod_style) = match self.qpath_info(true) {
-                Some(x) => x,
-                None => return false,
-            };
-            if !qself && mod_style && self.peek_p1(0, b'!') {
+            let (qself, mod_style) = self.qpath_info(true)?;
+            if !qself && self.peek_p1(0, b'!') && !self.peek_p2(0, b'!', b'=') && mod_style {
                 // macro invocation: `!` then any delimiter
                 self.i += 1;
-                return self.eat_any_group();
+                return if self.eat_any_group() { Some(Lhs::Plain) } else { None };
             }
             if self.peek_group(0, b'{') {
                 self.i += 1; // struct literal `a { a }`
             }
-            return true;
+            return Some(Lhs::Plain);
         }
         if self.peek_group(0, b'(') || self.peek_group(0, b'{') || self.peek_group(0, b'[') {
             self.i += 1;
-            return true;
+            return Some(Lhs::Plain);
         }
-        false
+        if self.peek_dotdot(0) {
+            // expr_range
+            let closed = self.range_limits()?;
+            self.range_end(closed)?;
+            return Some(Lhs::Range);
+        }
+        None
     }
     fn eat_any_group(&mut self) -> bool {
         if matches!(self.at(0), Some(t) if t.kind == K_GROUP) {
@@ -306,6 +436,7 @@ impl<'a> P<'a> {
             if !self.pat() {
                 return false;
             }
+            // closure_arg: `: Type` needs a lone `:`, which is outside the domain (c16_seq)
             if self.peek_p1(0, b'|') {
                 break;
             }
@@ -334,24 +465,51 @@ impl<'a> P<'a> {
 
     // ------------------------------------------------------------------ patterns (pat.rs: Pat::parse_single)
     fn pat(&mut self) -> bool {
-        if self.peek_ident(0) && !(self.peek_p2(1, b':', b':') || self.peek_group(1, b'{') || self.peek_group(1, b'(') || self.peek_p1(1, b'<')) {
-            // pat_ident (no `@`, no `..` in the alphabet)
-            self.i += 1;
-            return true;
+        if !self.enter() {
+            return false;
         }
-        if self.peek_ident(0) || self.peek_p2(0, b':', b':') || self.peek_p1(0, b'<') {
+        let ok = self.pat_inner();
+        self.depth -= 1;
+        ok
+    }
+    fn pat_inner(&mut self) -> bool {
+        if (self.peek_ident(0)
+            && (self.peek_p2(1, b':', b':') || self.peek_p1(1, b'!') || self.peek_group(1, b'{') || self.peek_group(1, b'(') || self.peek_dotdot(1)))
+            || self.peek_p2(0, b':', b':')
+            || self.peek_p1(0, b'<')
+        {
             // pat_path_or_macro_or_struct_or_range
             let (qself, mod_style) = match self.qpath_info(true) {
                 Some(x) => x,
                 None => return false,
             };
-            if !qself && mod_style && self.peek_p1(0, b'!') {
+            if !qself && self.peek_p1(0, b'!') && !self.peek_p2(0, b'!', b'=') && mod_style {
                 self.i += 1;
                 return self.eat_any_group();
             }
             if self.peek_group(0, b'{') || self.peek_group(0, b'(') {
                 self.i += 1;
+                return true;
             }
+            if self.peek_dotdot(0) {
+                return self.pat_range_rest(true);
+            }
+            return true;
+        }
+        if self.peek_p1(0, b'-') || self.peek_lit(0) {
+            // pat_lit_or_range
+            match self.pat_range_bound() {
+                Some(true) => {}
+                _ => return false,
+            }
+            if self.peek_dotdot(0) {
+                return self.pat_range_rest(true);
+            }
+            return true;
+        }
+        if self.peek_ident(0) {
+            // pat_ident (no `@` in the alphabet)
+            self.i += 1;
             return true;
         }
         if self.peek_p1(0, b'&') {
@@ -359,23 +517,58 @@ impl<'a> P<'a> {
             self.i += 1;
             return self.pat();
         }
-        if self.peek_group(0, b'[') {
-            self.i += 1; // slice pattern
-            return true;
-        }
-        if self.peek_p1(0, b'-') && self.peek_lit(1) {
-            self.i += 2;
-            return true;
-        }
-        if self.peek_lit(0) {
+        if self.peek_group(0, b'(') || self.peek_group(0, b'[') {
             self.i += 1;
             return true;
         }
-        if self.peek_group(0, b'(') {
-            self.i += 1;
-            return true;
+        if self.peek_dotdot(0) && !self.peek_p3(0, b'.', b'.', b'.') {
+            // pat_range_half_open: RangeLimits::parse, then an optional bound; `..` alone is a rest pattern
+            let closed = if self.peek_p3(0, b'.', b'.', b'=') {
+                self.i += 3;
+                true
+            } else {
+                self.i += 2;
+                false
+            };
+            return match self.pat_range_bound() {
+                Some(true) => true,
+                Some(false) => !closed,
+                None => false,
+            };
         }
         false
+    }
+    /// RangeLimits::parse_obsolete (`..=`, `...`, `..`) then pat_range_bound; a closed range needs its upper bound
+    fn pat_range_rest(&mut self, _has_start: bool) -> bool {
+        let closed = if self.peek_p3(0, b'.', b'.', b'=') || self.peek_p3(0, b'.', b'.', b'.') {
+            self.i += 3;
+            true
+        } else {
+            self.i += 2;
+            false
+        };
+        match self.pat_range_bound() {
+            Some(true) => true,
+            Some(false) => !closed,
+            None => false,
+        }
+    }
+    /// pat_range_bound: Some(true) a bound was parsed, Some(false) there is none, None error
+    fn pat_range_bound(&mut self) -> Option<bool> {
+        if self.i >= self.n || self.peek_p1(0, b'|') || self.peek_p1(0, b'=') || self.peek_p1(0, b',') {
+            // (a lone `:` would also end the bound; it is outside the domain)
+            return Some(false);
+        }
+        let l = self.peek_lit_neg(0);
+        if l > 0 {
+            self.i += l;
+            return Some(true);
+        }
+        if self.peek_ident(0) || self.peek_p2(0, b':', b':') || self.peek_p1(0, b'<') {
+            // ExprPath::parse
+            return if self.qpath(true) { Some(true) } else { None };
+        }
+        None
     }
 
     // ------------------------------------------------------------------ paths and types (path.rs, ty.rs)
@@ -385,85 +578,76 @@ impl<'a> P<'a> {
     }
     /// path::parsing::qpath; returns (has a qualified self, path is mod-style i.e. no segment has generic arguments)
     fn qpath_info(&mut self, expr_style: bool) -> Option<(bool, bool)> {
-        let start = self.i;
-        let q = self.peek_p1(0, b'<');
-        if !self.qpath_inner(expr_style) {
+        if !self.enter() {
             return None;
         }
-        let mut mod_style = true;
-        let mut k = start;
-        while k < self.i {
-            if self.t[k].kind == K_PUNCT && self.t[k].ch == b'<' {
-                mod_style = false;
-            }
-            k += 1;
-        }
-        Some((q, mod_style))
+        let r = self.qpath_inner(expr_style);
+        self.depth -= 1;
+        r
     }
-    fn qpath_inner(&mut self, expr_style: bool) -> bool {
+    fn qpath_inner(&mut self, expr_style: bool) -> Option<(bool, bool)> {
         if self.peek_p1(0, b'<') {
             self.i += 1;
             if !self.ty() {
-                return false;
+                return None;
             }
             if self.peek_as(0) {
                 self.i += 1;
                 // Path::parse (not expr style)
-                if !self.path(false) {
-                    return false;
-                }
+                self.path(false)?;
             }
             if !self.eat_p1(b'>') {
-                return false;
+                return None;
             }
             if !self.eat_p2(b':', b':') {
-                return false;
+                return None;
             }
+            let mut mod_style = true;
             loop {
-                if !self.segment(expr_style) {
-                    return false;
+                if self.segment(expr_style)? {
+                    mod_style = false;
                 }
                 if !self.peek_p2(0, b':', b':') {
                     break;
                 }
                 self.i += 2;
             }
-            true
+            Some((true, mod_style))
         } else {
-            self.path(expr_style)
+            self.path(expr_style).map(|m| (false, m))
         }
     }
-    /// Path::parse_helper + parse_rest
-    fn path(&mut self, expr_style: bool) -> bool {
+    /// Path::parse_helper + parse_rest; Some(mod_style)
+    fn path(&mut self, expr_style: bool) -> Option<bool> {
         if self.peek_p2(0, b':', b':') {
             self.i += 2;
         }
-        if !self.segment(expr_style) {
-            return false;
-        }
+        let mut mod_style = !self.segment(expr_style)?;
         // parse_rest: `::` not followed (peek3) by a paren group
         while self.peek_p2(0, b':', b':') && !self.peek_group(2, b'(') {
             self.i += 2;
-            if !self.segment(expr_style) {
-                return false;
+            if self.segment(expr_style)? {
+                mod_style = false;
             }
         }
-        true
+        Some(mod_style)
     }
-    /// PathSegment::parse_helper
-    fn segment(&mut self, expr_style: bool) -> bool {
+    /// PathSegment::parse_helper; Some(has generic arguments)
+    fn segment(&mut self, expr_style: bool) -> Option<bool> {
         if !self.peek_ident(0) {
-            return false;
+            return None;
         }
         self.i += 1;
-        if (!expr_style && self.peek_p1(0, b'<')) || (self.peek_p2(0, b':', b':') && self.peek_p1(2, b'<')) {
+        if (!expr_style && self.peek_p1(0, b'<') && !self.peek_p2(0, b'<', b'=') && !self.peek_p3(0, b'<', b'<', b'='))
+            || (self.peek_p2(0, b':', b':') && self.peek_p1(2, b'<'))
+        {
             // AngleBracketedGenericArguments::parse: optional `::`
             if self.peek_p2(0, b':', b':') {
                 self.i += 2;
             }
-            return self.angle_args();
+            return if self.angle_args() { Some(true) } else { None };
         }
-        true
+        Some(false)
     }
     /// AngleBracketedGenericArguments::do_parse, positioned at `<`
     fn angle_args(&mut self) -> bool {
@@ -493,7 +677,12 @@ impl<'a> P<'a> {
     }
     /// GenericArgument::parse
     fn generic_argument(&mut self) -> bool {
-        if self.peek_lit(0) || self.peek_group(0, b'{') {
+        let l = self.peek_lit_neg(0);
+        if l > 0 {
+            self.i += l;
+            return true;
+        }
+        if self.peek_group(0, b'{') {
             self.i += 1;
             return true;
         }
@@ -502,19 +691,30 @@ impl<'a> P<'a> {
             return false;
         }
         // `ident [<args>] = ...`: an associated type / const binding, only after a one-segment path type without leading `::`
-        if self.one_segment_path(start) && self.peek_p1(0, b'=') {
-            self.i += 1;
-            if self.peek_lit(0) || self.peek_group(0, b'{') {
+        if self.one_segment_path(start) {
+            if self.peek_p1(0, b'=') {
                 self.i += 1;
-                return true;
+                let l = self.peek_lit_neg(0);
+                if l > 0 {
+                    self.i += l;
+                    return true;
+                }
+                if self.peek_group(0, b'{') {
+                    self.i += 1;
+                    return true;
+                }
+                return self.ty();
             }
-            return self.ty();
+            if self.peek_p1(0, b':') {
+                // Option<Token![:]> takes the first half of a `::` left over before a paren group; the bound that must follow cannot start with `:`
+                return false;
+            }
         }
         true
     }
     /// was tts[start..i] a type of the form `ident` or `ident<...>` (optionally `ident::<...>`)?
     fn one_segment_path(&self, start: usize) -> bool {
-        let t = &self.t;
+        let t = self.t;
         if !(start < self.i && t[start].kind == K_IDENT && !t[start].keyword) {
             return false;
         }
@@ -529,11 +729,14 @@ impl<'a> P<'a> {
         if !(k < self.i && t[k].kind == K_PUNCT && t[k].ch == b'<') {
             return false;
         }
+        // the type parser consumed exactly tts[start..i]; a one-segment path is `ident <args>` where the `<` at k closes at i-1.
+        // Angle brackets inside the arguments nest (closure-free token level: every `<` consumed as generic-argument opener or
+        // qualified-self opener is matched by a `>`), and `->` does not occur in the types of the alphabet.
         let mut depth = 0i32;
         while k < self.i {
             if t[k].kind == K_PUNCT && t[k].ch == b'<' {
                 depth += 1;
-            } else if t[k].kind == K_PUNCT && t[k].ch == b'>' && !(k > 0 && t[k - 1].kind == K_PUNCT && t[k - 1].ch == b'-' && t[k - 1].joint) {
+            } else if t[k].kind == K_PUNCT && t[k].ch == b'>' {
                 depth -= 1;
                 if depth == 0 {
                     return k + 1 == self.i;
@@ -543,20 +746,19 @@ impl<'a> P<'a> {
         }
         false
     }
-    /// ty::parsing::ambig_ty restricted to the alphabet: tuple type or (qualified) path type
+    /// ty::parsing::ambig_ty restricted to the alphabet
     fn ty(&mut self) -> bool {
-        self.depth += 1;
-        if self.depth > 24 {
+        if !self.enter() {
             return false;
         }
         let ok = if self.peek_group(0, b'(') {
-            self.i += 1;
+            self.i += 1; // tuple type `(a, a)`
             true
         } else if self.peek_ident(0) || self.peek_p2(0, b':', b':') || self.peek_p1(0, b'<') {
             match self.qpath_info(false) {
                 None => false,
                 Some((qself, mod_style)) => {
-                    if !qself && mod_style && self.peek_p1(0, b'!') {
+                    if !qself && self.peek_p1(0, b'!') && !self.peek_p2(0, b'!', b'=') && mod_style {
                         // TypeMacro
                         self.i += 1;
                         self.eat_any_group()
@@ -566,13 +768,14 @@ impl<'a> P<'a> {
                 }
             }
         } else if self.peek_p1(0, b'&') {
+            // TypeReference (no lifetime, no `mut` in the alphabet)
             self.i += 1;
             self.ty()
         } else if self.peek_p1(0, b'!') {
             self.i += 1; // never type
             true
         } else {
-            // `[a, a]` is neither a slice nor an array type
+            // `[a, a]` is neither a slice nor an array type; `{ a }`, literals and other punctuation start no type
             false
         };
         self.depth -= 1;
@@ -580,9 +783,9 @@ impl<'a> P<'a> {
     }
 }
 
-/// `[name =] expr (, [name =] expr)* [,]` - None if the tokens are not such a list in Rust's grammar
+/// `[name =] expr (, [name =] expr)* [,]` - None if the tokens are not such a list in Rust's grammar (or outside the domain)
 pub fn expr_list(tts: &[Tt], out: &mut [OArg; 8], flags: &mut u8) -> Option<usize> {
-    if tts.len() > MAXTT {
+    if tts.len() > MAXTT || !c16_seq(tts) {
         return None;
     }
     let mut p = P { t: tts, n: tts.len(), i: 0, depth: 0, flags: 0 };
@@ -592,12 +795,13 @@ pub fn expr_list(tts: &[Tt], out: &mut [OArg; 8], flags: &mut u8) -> Option<usiz
             break;
         }
         let first = p.i;
-        // format_args!: `ident = expr` is a named argument when the token after the identifier is exactly `=`
-        let alias = p.peek_ident(0) && p.peek_p1(1, b'=') && !p.peek_p2(1, b'=', b'=');
+        // format_args!: `ident = expr` is a named argument when the token after the identifier is exactly `=` (not `==`, not `=>`)
+        let alias = p.peek_ident(0) && p.peek_p1(1, b'=') && !p.peek_p2(1, b'=', b'=') && !p.peek_p2(1, b'=', b'>');
         if alias {
             p.i += 2;
         }
         let estart = p.i;
+        p.depth = 0;
         if !p.expr() {
             return None;
         }
